@@ -36,6 +36,14 @@ def observe(names):
         except Exception as e:  # noqa
             o["well_typed"] = type(e).__name__
         o["version"] = getattr(mod, "VERSION", None)
+        # which optimisation level the code that is executing was compiled for
+        o["debug_constant"] = getattr(mod, "DEBUG", None)
+        o["has_docstring"] = mod.__doc__ is not None
+        if hasattr(mod, "with_assert"):
+            try:
+                o["assert"] = mod.with_assert()
+            except AssertionError:
+                o["assert"] = "assert-ran"
         out[name] = o
     return out
 
